@@ -82,3 +82,22 @@ func ZvC06_S2_LStack() {
 	}
 	vrt.Cover("C06/S2/LStack/end")
 }
+
+// ZvC06_LongRun: one long scenario beyond the inductive size bound — 130 pushes of symbolic values,
+// then pop everything, checking value, Size and Peek at every step (capacity-dependent code).
+func ZvC06_LongRun() {
+	const N = 130
+	s := New[int]()
+	vals := make([]int, N)
+	for i := range vals {
+		vals[i] = vrt.Int()
+		s.Push(vals[i])
+	}
+	vrt.Assert(s.Size() == N, "C06/Stack/long-run/Size-after-growth")
+	for i := N - 1; i >= 0; i-- {
+		vrt.Assert(s.Peek() == vals[i], "C06/Stack/long-run/Peek-is-top")
+		vrt.Assert(s.Pop() == vals[i], "C06/Stack/long-run/lifo-without-loss")
+		vrt.Assert(s.Size() == i, "C06/Stack/long-run/Size-while-draining")
+	}
+	vrt.Assert(vrt.And(s.Pop() == 0, s.Size() == 0), "C06/Stack/long-run/empty-at-the-end")
+}
